@@ -296,6 +296,131 @@ def connect_failure_case(ctx, workdir: str, name: str, file_state: str) -> None:
                       case)
 
 
+def builtin_connect_failure_case(ctx, workdir: str, name: str) -> None:
+    """A built-in transport whose connect fails: the context must raise exactly what transport.connect() raises
+    (same class), leave no task behind - also when the failure is not a TransportError."""
+    from aiomqtt import MqttError
+
+    from aiomysensors.gateway import Config, Gateway
+    from aiomysensors.transport.mqtt import MQTTClient
+
+    path = os.path.join(workdir, "bcf.json")
+    prepare_file(path, "present")
+    case = {"engine": "vloop", "builtin_connect_failure": name}
+
+    def make():
+        if name == "mqtt-broker-refuses":
+            FakeClient.connect_error = MqttError("connection refused")
+        elif name == "mqtt-subscribe-fails":
+            FakeClient.subscribe_error = MqttError("subscribe failed")
+        return MQTTClient("broker.invalid", 1883, in_prefix="in", out_prefix="out")
+
+    async def scenario() -> dict:
+        reference = None
+        try:
+            await make().connect()
+        except BaseException as exc:  # noqa: BLE001
+            reference = exc
+        gateway = Gateway(make(), Config(persistence_file=path))
+        before = set(asyncio.all_tasks())
+        observed = None
+        try:
+            async with gateway:
+                pass
+        except BaseException as exc:  # noqa: BLE001
+            observed = exc
+        await asyncio.sleep(0)
+        left = [t for t in asyncio.all_tasks() if t not in before and t is not asyncio.current_task() and not t.done()
+                and "_handle_incoming" not in repr(t) and "reference" not in repr(t)]
+        out = {"reference": reference, "observed": observed, "leftovers": [repr(t)[:160] for t in left]}
+        for t in [t for t in asyncio.all_tasks() if t is not asyncio.current_task()]:
+            t.cancel()
+        return out
+
+    with install() as seam:
+        if not seam:
+            ctx.skip("mqtt-fake", "no aiomqtt client seam")
+            return
+        result, _loop = run_virtual(scenario)
+    ctx.case(("builtin-connect-fail", name), sample=case)
+    if isinstance(result, LogicalDeadlock):
+        ctx.violation("context-deadlock", f"logical deadlock in {case}", case)
+        return
+    ctx.clause("connect-failure-propagates")
+    reference, observed = result["reference"], result["observed"]
+    if reference is None:
+        ctx.obs("builtin-connect-failure-did-not-fail:" + name)
+        return
+    if observed is None or type(observed) is not type(reference):
+        ctx.violation("connect-failure-not-propagated",
+                      f"{name}: transport.connect() raises {type(reference).__name__} but entering the gateway context raised "
+                      f"{type(observed).__name__ if observed else 'nothing'} ({observed!s:.80})", case)
+    ctx.clause("connect-failure-no-task-left")
+    if [t for t in result["leftovers"] if "save" in t]:
+        ctx.violation("saver-leak-on-connect-failure", f"{name}: tasks left behind {result['leftovers']}", case)
+
+
+def second_session_case(ctx, workdir: str, transport_kind: str, k: int) -> None:
+    """The same Gateway object is entered, left and entered again: the second session must save on entry, keep the
+    15-minute cadence and save on exit exactly like the first."""
+    from aiomysensors.gateway import Config, Gateway
+    from aiomysensors.model.node import Node
+
+    path = os.path.join(workdir, "second.json")
+    prepare_file(path, "missing")
+    case = {"engine": "vloop", "second_session": True, "transport": transport_kind, "k": k}
+
+    async def scenario() -> dict:
+        problems = []
+        transport = make_transport(transport_kind, {"mode": "normal"})
+        gateway = Gateway(transport, Config(persistence_file=path))
+        async with gateway:
+            for _ in range(k):
+                await asyncio.sleep(0)
+        gateway.nodes[20] = Node(20, 17, "2.0", sketch_name="between sessions")
+        before = set(asyncio.all_tasks())
+        async with gateway:
+            await asyncio.sleep(1)
+            status, disk = registry_on_disk(path)
+            if status != "ok" or disk != typed(snap(gateway.nodes)):
+                problems.append(("no-save-after-entry", "second session: 1 virtual second after entry the file does not hold "
+                                                        f"the registry (file {status})"))
+            gateway.nodes[21] = Node(21, 17, "2.0")
+            await asyncio.sleep(SAVE_BOUND + 5)
+            status, disk = registry_on_disk(path)
+            if status != "ok" or disk != typed(snap(gateway.nodes)):
+                problems.append(("periodic-save-too-late", f"second session: a change is not on disk {SAVE_BOUND + 5} virtual "
+                                                           f"seconds later (file {status})"))
+            gateway.nodes[22] = Node(22, 17, "2.0")
+        final = typed(snap(gateway.nodes))
+        await asyncio.sleep(0)
+        left = [repr(t)[:160] for t in asyncio.all_tasks() if t not in before and t is not asyncio.current_task()
+                and not t.done()]
+        status, disk = registry_on_disk(path)
+        if status != "ok" or disk != final:
+            problems.append(("no-final-save", f"second session: file after exit differs from the registry (file {status})"))
+        if left:
+            problems.append(("task-left-after-exit", f"second session left {left}"))
+        for t in [t for t in asyncio.all_tasks() if t is not asyncio.current_task()]:
+            t.cancel()
+        return {"problems": problems}
+
+    with install() as seam:
+        if transport_kind == "mqtt-fake" and not seam:
+            return
+        result, _loop = run_virtual(scenario)
+    ctx.case(("second-session", transport_kind, k), sample=case)
+    ctx.clause("second-session")
+    if isinstance(result, LogicalDeadlock):
+        ctx.violation("context-deadlock", f"logical deadlock in {case}", case)
+        return
+    if isinstance(result, BaseException):
+        ctx.violation("second-session-raised", f"{type(result).__name__}", case)
+        return
+    for key, what in result["problems"]:
+        ctx.violation(key, what, case)
+
+
 def cadence_case(ctx, workdir: str, hours: int, seed: int) -> None:
     from aiomysensors.gateway import Config, Gateway
     from aiomysensors.model.node import Child, Node
@@ -499,8 +624,20 @@ def real_connect_failures(ctx, workdir: str) -> None:
         ctx.case(("real-connect-fail", name), sample=case)
         ctx.clause("connect-failure-propagates")
         ctx.obs(f"connect-failure:{name}:{type(result['observed']).__name__}")
+        reference = None
+        loop2 = asyncio.new_event_loop()
+        try:
+            loop2.run_until_complete(asyncio.wait_for(factory().connect(), 30))
+        except BaseException as exc:  # noqa: BLE001
+            reference = exc
+        finally:
+            loop2.close()
         if result["observed"] is None:
             ctx.violation("connect-failure-not-propagated", f"{name}: the context was entered", case)
+        elif reference is not None and type(result["observed"]) is not type(reference):
+            ctx.violation("connect-failure-not-propagated",
+                          f"{name}: transport.connect() raises {type(reference).__name__}, the context raised "
+                          f"{type(result['observed']).__name__}", case)
         ctx.clause("connect-failure-no-task-left")
         if result["leftovers"]:
             ctx.violation("saver-leak-on-connect-failure", f"{name} ({type(result['observed']).__name__}): tasks left behind "
@@ -512,6 +649,10 @@ def run_case(ctx, case: dict) -> None:
     try:
         if "connect_error" in case:
             connect_failure_case(ctx, workdir, case["connect_error"], case["file"])
+        elif "builtin_connect_failure" in case:
+            builtin_connect_failure_case(ctx, workdir, case["builtin_connect_failure"])
+        elif case.get("second_session"):
+            second_session_case(ctx, workdir, case["transport"], case["k"])
         elif "cadence_hours" in case:
             cadence_case(ctx, workdir, case["cadence_hours"], case["seed"])
         elif "connect_failure" in case:
@@ -548,6 +689,13 @@ def run(ctx) -> None:
                 for file_state in ("missing", "present"):
                     if ctx.mine():
                         connect_failure_case(ctx, workdir, name, file_state)
+            for name in ("mqtt-broker-refuses", "mqtt-subscribe-fails"):
+                if ctx.mine():
+                    builtin_connect_failure_case(ctx, workdir, name)
+            for transport in ("scripted", "mqtt-fake"):
+                for k in (0, 1, 3, 8, 20):
+                    if ctx.mine():
+                        second_session_case(ctx, workdir, transport, k)
             hours = ctx.pick(10, 100)
             if ctx.shard_index < 4:
                 cadence_case(ctx, workdir, hours, ctx.seed * 100 + ctx.shard_index)
